@@ -231,7 +231,8 @@ def overlay_entries_replaced_whole(ctx, p, MAPS=None, what='log', key='h log-ove
     for the commit overlay (tag = commit id, removed by clean_overlay of that commit only)."""
     F = ctx.F
     LOG_OVERLAY_MAPS = MAPS if MAPS is not None else globals()['LOG_OVERLAY_MAPS']
-    EDIT = re.compile(r'(HashMap.*::(get_mut|get_many_mut|iter_mut|values_mut|get_or_insert_with)|hash_map::(OccupiedEntry|VacantEntry|Entry).*::(get_mut|into_mut|and_modify|or_insert|or_insert_with|or_insert_with_key|or_default)|hash_map::(IterMut|ValuesMut).*::next)$')
+    EDIT = re.compile(r'(HashMap.*::(get_mut|get_many_mut|iter_mut|values_mut|get_or_insert_with)|hash_map::(OccupiedEntry|VacantEntry|Entry).*::(get_mut|into_mut|and_modify|or_insert|or_insert_with|or_insert_with_key|or_default)|hash_map::(IterMut|ValuesMut).*::next'
+                      r'|BTreeMap.*::(get_mut|iter_mut|values_mut|range_mut|first_entry|last_entry)|btree_map::(OccupiedEntry|VacantEntry|Entry).*::(get_mut|into_mut|and_modify|or_insert|or_insert_with|or_insert_with_key|or_default)|btree_map::(IterMut|ValuesMut|RangeMut).*::next)$')
     bound = overlay_bound_params(F, LOG_OVERLAY_MAPS)
     bad = []
     nwrite = 0
@@ -242,14 +243,14 @@ def overlay_entries_replaced_whole(ctx, p, MAPS=None, what='log', key='h log-ove
             if bi not in b.normal_blocks():
                 continue
             nm = t.get('r') or t.get('f') or ''
-            if re.search(r'(HashMap.*::(insert|extend)|Extend<.*>>::extend)$', nm) and receiver_is_overlay(F, b, t, LOG_OVERLAY_MAPS, bound):
+            if re.search(r'((HashMap|BTreeMap).*::(insert|extend)|Extend<.*>>::extend)$', nm) and receiver_is_overlay(F, b, t, LOG_OVERLAY_MAPS, bound):
                 nwrite += 1
                 continue
             if not EDIT.search(nm) or 'Vec<' in nm:
                 continue
             # entry handles: receiver derives from a HashMap::entry call on an overlay map
             hit = receiver_is_overlay(F, b, t, LOG_OVERLAY_MAPS, bound)
-            if hit and ('HashMap' in nm or 'hash_map::' in nm):
+            if hit and ('HashMap' in nm or 'hash_map::' in nm or 'BTreeMap' in nm or 'btree_map::' in nm):
                 bad.append('%s on %s in %s at %s' % (nm.split('::')[-1], hit, b.path, b.loc(bi)))
     ctx.ob(p + key, 'K4-confinement', '-',
            'outside the record under construction, entries of the shared %s overlay are only inserted/extended whole (tag and data together) - never looked up mutably or edited in place (a kept older tag would let the clean-up of the older owner drop the younger owner\'s data)' % what,
